@@ -868,6 +868,329 @@ fn one_program(seed: u64, index: u64, acc: &mut Acc, w: &mut Vec<String>) {
     }
 }
 
+
+// ------------------------------------------------------------------------------------------
+// stream "egg": the model's predicted DATABASE (Sched/EggStep.v: run_schedule over one iteration of
+// the shared rule interpreter Egg/Rules.v, with the engine's `changed` flag modelled per ground
+// command) against the engine after a whole schedule.  Programs are in the Egg fragment
+// (harness/src/egg.rs + egg_gen.rs); rules are spread over r0 r1 r2, `comb = r0 + r1` is declared
+// before some of the rules are added, `d` holds a delete-only rule over a relation that nothing
+// else writes.  Per case: the `changed` flag of every iteration and the observable database at
+// the end (class vector of probe terms, table sizes, subsumed counts, int probes).
+mod eggs {
+    use super::*;
+    use verif_harness::egg::{self, Action, Cmd, Decl, Fact, Kind, Pat, Program, Rule, Sort};
+    use verif_harness::egg_gen::{Bias, Gen};
+
+    pub const RS: [&str; 5] = ["r0", "r1", "r2", "comb", "d"];
+
+    #[derive(Clone, Debug)]
+    pub enum ES {
+        Atom(usize),
+        Leaf(usize, Option<usize>),
+        Rep(usize, Vec<ES>),
+        Sat(Vec<ES>),
+        Seq(Vec<ES>),
+    }
+
+    pub struct EProg {
+        pub p: Program,
+        pub setup: Vec<Action>,
+        pub rules: Vec<(Rule, usize)>,
+        /// number of rules declared before the combination
+        pub before: usize,
+        pub untils: Vec<Vec<Fact>>,
+        pub creates: bool,
+    }
+
+    fn pat_has_var(p: &Pat) -> bool {
+        match p {
+            Pat::Var(_) => true,
+            Pat::Int(_) => false,
+            Pat::Add(a, b) => pat_has_var(a) || pat_has_var(b),
+            Pat::App(_, a) => a.iter().any(pat_has_var),
+        }
+    }
+    fn pat_creates(p: &Pat) -> bool {
+        match p {
+            Pat::Var(_) | Pat::Int(_) => false,
+            Pat::Add(_, _) => true,
+            Pat::App(_, a) => !a.is_empty() && a.iter().any(pat_has_var),
+        }
+    }
+    fn rule_creates(r: &Rule) -> bool {
+        r.head.iter().any(|a| match a {
+            Action::Expr(p) => pat_creates(p),
+            Action::Union(p, q) => pat_creates(p) || pat_creates(q),
+            Action::Set(_, args, v) => args.iter().any(pat_creates) || pat_creates(v),
+            _ => false,
+        })
+    }
+
+    pub fn gen(r: &mut Rng) -> EProg {
+        let bias = *r.pick(&[Bias::C01, Bias::C03, Bias::C05, Bias::C01]);
+        let calm = r.chance(1, 2);
+        let mut g = Gen::new(r, bias);
+        let d_rel = g.p.decls.len();
+        g.p.decls.push(Decl { name: "D".into(), kind: Kind::Rel, args: vec![Sort::S] });
+        let mut setup = vec![];
+        let mut rules: Vec<Rule> = vec![];
+        let mut seen: Vec<String> = vec![];
+        let nset = g.r.range(4, 9);
+        let nrules = g.r.range(3, 7);
+        let mut guard = 0;
+        while (setup.len() < nset || rules.len() < nrules) && guard < 200 {
+            guard += 1;
+            match g.command() {
+                Cmd::Act(a) => {
+                    if setup.len() < nset && matches!(a, Action::Expr(_) | Action::Union(_, _) | Action::Set(_, _, _)) {
+                        setup.push(a);
+                    }
+                }
+                Cmd::Rule(rule) => {
+                    let t = g.p.cmd_text(&Cmd::Rule(rule.clone()));
+                    if rules.len() < nrules && !seen.contains(&t) && !(calm && rule_creates(&rule)) {
+                        seen.push(t);
+                        rules.push(rule);
+                    }
+                }
+                _ => {}
+            }
+        }
+        // facts for the delete-only ruleset
+        for _ in 0..g.r.range(1, 3) {
+            let t = g.term(2);
+            setup.push(Action::Set(d_rel, vec![t], Pat::Int(0)));
+        }
+        let mut placed: Vec<(Rule, usize)> = vec![];
+        for rule in rules {
+            let rs = g.r.below(3);
+            placed.push((rule, rs));
+        }
+        let before = if placed.is_empty() { 0 } else { g.r.below(placed.len() + 1) };
+        // d: delete every D row; a reader of D in r2 when there is a relation to write to
+        placed.push((Rule { body: vec![Fact::Pat(Pat::App(d_rel, vec![Pat::Var(0)]))], head: vec![Action::Delete(d_rel, vec![Pat::Var(0)])] }, 4));
+        if let Some(&rl) = g.rels.first() {
+            placed.push((Rule { body: vec![Fact::Pat(Pat::App(d_rel, vec![Pat::Var(0)]))], head: vec![Action::Set(rl, vec![Pat::Var(0)], Pat::Int(0))] }, 2));
+        }
+        // :until fact sets: a ground term exists / two ground terms are equal / a relation row
+        let mut untils = vec![];
+        for _ in 0..2 {
+            let t = g.term(2);
+            let u = g.term(1);
+            let f = match g.r.below(3) {
+                0 => vec![Fact::Pat(t)],
+                1 => vec![Fact::Eq(0, t), Fact::Eq(0, u)],
+                _ => match g.rels.first() {
+                    Some(&rl) => vec![Fact::Pat(Pat::App(rl, vec![t]))],
+                    None => vec![Fact::Pat(t)],
+                },
+            };
+            untils.push(f);
+        }
+        let creates = placed.iter().any(|(r, _)| rule_creates(r));
+        EProg { p: g.p, setup, rules: placed, before, untils, creates }
+    }
+
+    impl EProg {
+        pub fn text(&self) -> String {
+            let mut t = self.p.header();
+            t.push_str("(ruleset r0)\n(ruleset r1)\n(ruleset r2)\n(ruleset d)\n");
+            let rule_text = |(r, rs): &(Rule, usize)| {
+                let body = self.p.cmd_text(&Cmd::Rule(r.clone()));
+                format!("{} :ruleset {})\n", &body[..body.len() - 1], RS[*rs])
+            };
+            for x in &self.rules[..self.before] {
+                t.push_str(&rule_text(x));
+            }
+            t.push_str("(unstable-combined-ruleset comb r0 r1)\n");
+            for x in &self.rules[self.before..] {
+                t.push_str(&rule_text(x));
+            }
+            for a in &self.setup {
+                t.push_str(&self.p.action_text(a));
+                t.push('\n');
+            }
+            t
+        }
+        pub fn until_text(&self, u: usize) -> String {
+            self.untils[u].iter().map(|f| self.p.fact_text(f)).collect::<Vec<_>>().join(" ")
+        }
+        pub fn until_coq(&self, u: Option<usize>) -> String {
+            match u {
+                None => "None".into(),
+                Some(u) => format!("(Some {})", coq_list(&self.untils[u], Program::fact_coq)),
+            }
+        }
+        pub fn prog_coq(&self) -> String {
+            let mut sets: Vec<Vec<usize>> = vec![vec![]; 5];
+            for (i, (_, rs)) in self.rules.iter().enumerate() {
+                sets[*rs].push(i);
+            }
+            format!(
+                "(mkProg {} {} [(0, Rules {}); (1, Rules {}); (2, Rules {}); (3, Combined [0; 1]); (4, Rules {})])",
+                self.p.sg_coq(),
+                coq_list(&self.rules, |(r, _)| format!("mkRule {} {}", coq_list(&r.body, Program::fact_coq), coq_list(&r.head, Program::action_coq))),
+                coq_nat_list(&sets[0]),
+                coq_nat_list(&sets[1]),
+                coq_nat_list(&sets[2]),
+                coq_nat_list(&sets[4])
+            )
+        }
+        pub fn s_text(&self, s: &ES) -> String {
+            let many = |v: &Vec<ES>| v.iter().map(|x| self.s_text(x)).collect::<Vec<_>>().join(" ");
+            match s {
+                ES::Atom(rs) => RS[*rs].to_string(),
+                ES::Leaf(rs, None) => format!("(run {})", RS[*rs]),
+                ES::Leaf(rs, Some(u)) => format!("(run {} :until {})", RS[*rs], self.until_text(*u)),
+                ES::Rep(n, v) => format!("(repeat {n} {})", many(v)),
+                ES::Sat(v) => format!("(saturate {})", many(v)),
+                ES::Seq(v) => format!("(seq {})", many(v)),
+            }
+        }
+        /// through the REGENERATED desugaring of parse_schedule (gen/SchedRunFacts.v)
+        pub fn s_coq(&self, s: &ES) -> String {
+            let many = |v: &Vec<ES>| coq_list(v, |x| self.s_coq(x));
+            match s {
+                ES::Atom(rs) => format!("desugar_atom {rs}"),
+                ES::Leaf(rs, u) => format!("desugar_run_leaf {rs} {}", self.until_coq(*u)),
+                ES::Rep(n, v) => format!("desugar_repeat {n} {}", many(v)),
+                ES::Sat(v) => format!("desugar_saturate {}", many(v)),
+                ES::Seq(v) => format!("desugar_seq {}", many(v)),
+            }
+        }
+    }
+
+    fn gen_leaf(r: &mut Rng) -> ES {
+        let rs = *r.pick(&[0usize, 1, 2, 3, 3, 4]);
+        match r.below(4) {
+            0 => ES::Atom(rs),
+            1 => ES::Leaf(rs, Some(r.below(2))),
+            _ => ES::Leaf(rs, None),
+        }
+    }
+    fn gen_s(r: &mut Rng, depth: usize, sat: bool) -> ES {
+        if depth == 0 || r.chance(1, 3) {
+            return gen_leaf(r);
+        }
+        let k = r.range(1, 3);
+        let v: Vec<ES> = (0..k).map(|_| gen_s(r, depth - 1, sat)).collect();
+        match r.below(if sat { 4 } else { 3 }) {
+            0 | 1 => ES::Rep(r.range(1, 3), v),
+            2 => ES::Seq(v),
+            _ => ES::Sat(v),
+        }
+    }
+
+    #[derive(Default)]
+    pub struct EAcc {
+        pub cases: usize,
+        pub nontrivial: usize,
+        pub engine_fail: BTreeMap<String, usize>,
+        pub iters_hist: BTreeMap<String, usize>,
+        pub form_hist: BTreeMap<String, usize>,
+        pub delete_only_unreported: usize,
+        pub samples: Vec<String>,
+        pub distinct: HashSet<u64>,
+    }
+
+    pub fn one(seed: u64, index: u64, acc: &mut EAcc, w: &mut CaseWriter) {
+        let mut r = Rng::for_case(seed ^ 0xE66_5C4E_D, index);
+        let ep = gen(&mut r);
+        let text = ep.text();
+        let probes = egg::enumerate_probes(&ep.p, 2, 24, &[0, 1, 2]);
+        let mut iprobes: Vec<Pat> = vec![];
+        for (f, d) in ep.p.decls.iter().enumerate() {
+            if d.kind != Kind::Ctor && d.args.len() == 1 {
+                for t in probes.iter().filter(|t| egg::pat_size(t) <= 3).take(6) {
+                    iprobes.push(Pat::App(f, vec![t.clone()]));
+                }
+            }
+        }
+        let nsched = 3;
+        for k in 0..nsched {
+            // schedule: a (run-schedule ..) or the command form (run R n :until ..)
+            let (cmd_text, sched_coq, form) = if r.chance(1, 4) {
+                let rs = *r.pick(&[0usize, 1, 2, 3, 4]);
+                let n = r.range(1, 4);
+                let u = if r.chance(1, 3) { Some(r.below(2)) } else { None };
+                let t = match u {
+                    None => format!("(run {} {n})", RS[rs]),
+                    Some(u) => format!("(run {} {n} :until {})", RS[rs], ep.until_text(u)),
+                };
+                (t, format!("(desugar_run {rs} {n} {})", ep.until_coq(u)), "run-command")
+            } else {
+                let n = r.range(1, 3);
+                let v: Vec<ES> = (0..n).map(|_| gen_s(&mut r, 2, !ep.creates)).collect();
+                let t = format!("(run-schedule {})", v.iter().map(|x| ep.s_text(x)).collect::<Vec<_>>().join(" "));
+                (t, format!("(desugar_run_schedule {})", coq_list(&v, |x| ep.s_coq(x))), "run-schedule")
+            };
+            let res = guarded(|| {
+                let mut eg = EGraph::default();
+                eg.parse_and_run_program(None, &text)?;
+                Ok(eg)
+            })
+            .and_then(|mut eg| run(&mut eg, &cmd_text).map(|reps| (eg, reps)));
+            let (eg, reps) = match res {
+                Ok(x) => x,
+                Err(f) => {
+                    *acc.engine_fail.entry(format!("{f:?}")).or_insert(0) += 1;
+                    continue;
+                }
+            };
+            if reps.len() != 1 {
+                *acc.engine_fail.entry("no-report".into()).or_insert(0) += 1;
+                continue;
+            }
+            let flags: Vec<bool> = reps[0].iterations.iter().map(|it| it.changed()).collect();
+            let d = match egg::dump(&eg, &ep.p) {
+                Ok(d) => d,
+                Err(_) => {
+                    *acc.engine_fail.entry("dump".into()).or_insert(0) += 1;
+                    continue;
+                }
+            };
+            let obs = d.observe(&probes, &iprobes);
+            acc.cases += 1;
+            *acc.form_hist.entry(form.into()).or_insert(0) += 1;
+            *acc.iters_hist.entry(format!("{}", flags.len().min(12))).or_insert(0) += 1;
+            if flags.len() >= 2 && flags.iter().any(|b| *b) && acc.distinct.insert(hash_str(&format!("{text}{cmd_text}"))) {
+                acc.nontrivial += 1;
+            }
+            if acc.samples.len() < 3 && flags.len() >= 3 {
+                acc.samples.push(format!(
+                    "{{\"stream\":\"egg\",\"seed\":{seed},\"index\":{index},\"k\":{k},\"schedule\":{},\"flags\":{:?}}}",
+                    json_str(&cmd_text),
+                    flags
+                ));
+            }
+            w.push(format!(
+                "(mkEggCase {} {} {} {} {} {} ({}))",
+                ep.prog_coq(),
+                coq_list(&ep.setup, Program::action_coq),
+                sched_coq,
+                coq_list(&probes, Program::term_coq),
+                coq_list(&iprobes, Program::term_coq),
+                coq_list(&flags, |b| coq_bool(*b).to_string()),
+                obs.coq()
+            ));
+        }
+        // the removal-only iteration (c10_delete_not_reported): `(run d 3)` deletes every D row in its
+        // first iteration and the engine reports changed = false for it
+        let res = guarded(|| {
+            let mut eg = EGraph::default();
+            eg.parse_and_run_program(None, &text)?;
+            Ok(eg)
+        })
+        .and_then(|mut eg| run(&mut eg, "(run d 3)").map(|reps| (eg, reps)));
+        if let Ok((_, reps)) = res {
+            if reps.len() == 1 && reps[0].iterations.len() == 1 && !reps[0].updated {
+                acc.delete_only_unreported += 1;
+            }
+        }
+    }
+}
+
 fn hash_str(s: &str) -> u64 {
     let mut h: u64 = 0xcbf29ce484222325;
     for b in s.bytes() {
@@ -988,6 +1311,21 @@ fn run_all(o: &Opts) -> i32 {
         *acc.fail_hist.entry("programs-abandoned:nonterminating-schedule".into()).or_insert(0) += abandoned;
     }
     w.flush();
+    // stream "egg" (model-predicted database); skipped when replaying a law-pair input
+    let egg_header = "From Coq Require Import List NArith ZArith Bool.\nImport ListNotations.\nRequire Import Verif.Base.Cases Verif.Egg.Model Verif.Egg.Rules Verif.Sched.Syntax Verif.gen.SchedRunFacts Verif.Sched.EggStep.\n";
+    let mut ew = CaseWriter::new(&o.out, "cases_sched_egg", egg_header, "check_egg", 60);
+    let mut eacc = eggs::EAcc::default();
+    if o.replay.is_none() {
+        let mut n_egg = if o.thorough { 1500 } else { 100 };
+        if let Some(pos) = o.extra.iter().position(|x| x == "--n-egg") {
+            n_egg = o.extra[pos + 1].parse().expect("--n-egg");
+        }
+        for i in 0..n_egg {
+            eggs::one(o.seed, i, &mut eacc, &mut ew);
+        }
+    }
+    ew.flush();
+    acc.samples.extend(eacc.samples.iter().cloned());
     let viol: Vec<String> = acc
         .violations
         .iter()
@@ -995,9 +1333,9 @@ fn run_all(o: &Opts) -> i32 {
         .map(|(what, input, key)| format!("{{\"what\":{},\"input\":{},\"key\":{}}}", json_str(what), input, json_str(key)))
         .collect();
     let report = format!(
-        "{{\"sub\":\"sched\",\"cases\":{},\"shards\":{},\"distinct_nontrivial\":{},\"rule\":{},\"law_hist\":{},\"iterations_hist\":{},\"engine_fail_hist\":{},\"trace_shape_hist\":{},\"samples\":[{}],\"violations\":[{}],\"extra_coverage\":{{\"law_instances_on_engine\":{},\"model_cases\":{},\"repeat_pairs_with_early_stop\":{},\"repeat_pairs_with_early_stop_differing\":{},\"programs_with_rules_added_after_combination\":{},\"until_runs_stopped_by_facts\":{}}}}}\n",
+        "{{\"sub\":\"sched\",\"cases\":{},\"shards\":{},\"distinct_nontrivial\":{},\"rule\":{},\"law_hist\":{},\"iterations_hist\":{},\"engine_fail_hist\":{},\"trace_shape_hist\":{},\"samples\":[{}],\"violations\":[{}],\"extra_coverage\":{{\"law_instances_on_engine\":{},\"model_cases\":{},\"repeat_pairs_with_early_stop\":{},\"repeat_pairs_with_early_stop_differing\":{},\"programs_with_rules_added_after_combination\":{},\"until_runs_stopped_by_facts\":{},\"egg_model_cases\":{},\"egg_distinct_nontrivial\":{},\"egg_delete_only_iterations_unreported\":{},\"egg_iterations_hist\":{},\"egg_form_hist\":{},\"egg_engine_fail_hist\":{}}}}}\n",
         acc.evals,
-        w.shards,
+        w.shards + ew.shards,
         acc.nontrivial,
         json_str("seeded random monotone programs (4-8 rules from a pool of 17 over r0/r1/r2, combined c = r0+r1 declared before ~1/3 of the rules are added, u = copy of the current r0+r1, 2-3 terms, 2-6 edges) x 8 law instances (run_n, repeat_mul, seq_assoc, seq_unit, saturate, until, combined, 2 traces); an instance is non-trivial iff its schedule performed >= 3 iterations, at least one changed the database, and the two sides are textually different schedules; distinct by (program, schedule text)"),
         serde_json::to_string(&acc.law_hist).unwrap(),
@@ -1012,6 +1350,12 @@ fn run_all(o: &Opts) -> i32 {
         acc.early_stop_pairs_differ,
         acc.after_rule_essential,
         acc.until_stopped,
+        eacc.cases,
+        eacc.nontrivial,
+        eacc.delete_only_unreported,
+        serde_json::to_string(&eacc.iters_hist).unwrap(),
+        serde_json::to_string(&eacc.form_hist).unwrap(),
+        serde_json::to_string(&eacc.engine_fail).unwrap(),
     );
     std::fs::write(o.out.join("impl_report.json"), report).unwrap();
     if abandoned * 10 > ntodo {
